@@ -5,7 +5,7 @@
    fail), so that API calls, received packets, Close and other loops interleave between them; the public
    send API and raw received frames are events too.  All theorems quantify over ALL event sequences. *)
 From PV Require Import Base.Prelude Base.Slice Model.ArpSpoof Spec.ArpSpoof
-  Proofs.ArpSpoof Proofs.ArpSpoofLoops Proofs.ArpSpoofRx Proofs.ArpSpoofTimed Proofs.ArpSpoofMonitor.
+  Proofs.ArpSpoof Proofs.ArpSpoofLoops Proofs.ArpSpoofRx Proofs.ArpSpoofTimed Proofs.ArpSpoofMonitor Proofs.ArpSpoofAudit.
 Open Scope N_scope.
 
 (* ---- confinement ----
@@ -79,6 +79,36 @@ Example C13_run_nonvacuous :
 Proof. exact run_nonvacuous. Qed.
 Print Assumptions C13_run_nonvacuous.
 
+(* ---- who gets what (clause audit) ----
+   In every run, whatever a spoof loop hands to the connection is either the forged announcement for its OWN MAC
+   (and the loop goes on) or the request restoring the router's TRUE binding (sender = target = router MAC +
+   router IP) at its own MAC (and the loop returns): the corrective frames go to exactly the hosts that were
+   hunted, and carry exactly the true binding. *)
+Theorem C13_loop_frames : forall c evs s i out f,
+  In (s, Send i, out) (trace c init_state evs) -> In f out ->
+  exists a cont, loop_at s i a (PSend f cont) /\
+    ((cont = true /\ f = announce c (amac a)) \/ (cont = false /\ f = restore c (amac a))).
+Proof. exact loop_frames. Qed.
+Print Assumptions C13_loop_frames.
+
+(* A MAC that no StartHunt of the run ever named gets no forged frame of the handler's own, at any time, whatever
+   else happens (requests, replies, probes, announcements, gratuitous ARP, ticks, Close, any number of hosts).  In
+   particular: never the router itself, never our own host — unless the CALLER hunts them, which the handler does
+   not refuse (C13_hunting_the_router_is_the_callers_doing).  Hosts whose hunt ended: C13_stale_bound. *)
+Theorem C13_never_hunted_never_targeted : forall c m evs s e out f,
+  cfg_ok c -> none_of (is_start_of m) evs ->
+  In (s, e, out) (trace c init_state evs) -> In f out -> forged c f = true -> caller_forged c e = false ->
+  fedst f <> m.
+Proof. exact never_hunted_never_targeted. Qed.
+Print Assumptions C13_never_hunted_never_targeted.
+
+Example C13_hunting_the_router_is_the_callers_doing :
+  let c := wit_cfg in
+  outputs c init_state [StartHunt (mkAddr (router_mac c) (router_ip c)); Lookup 0; Check 0; Send 0]
+  = [[]; []; []; [announce c (router_mac c)]].
+Proof. exact hunting_the_router_is_the_callers_doing. Qed.
+Print Assumptions C13_hunting_the_router_is_the_callers_doing.
+
 (* ---- StartHunt is idempotent per MAC (any state, reachable or not) ---- *)
 Theorem C13_start_idempotent : forall c s a,
   hunted s (amac a) = true -> step c s (StartHunt a) = (s, []).
@@ -136,8 +166,9 @@ Print Assumptions C13_raw_frames.
 (* ---- StopHunt is undone, under every interleaving ----
    s1: ANY state in which a's MAC is not hunted (e.g. after StopHunt), the handler is open, and loop i (started
    for a) stands at its select.  Its next iteration — Lookup i, Check i, Send i with arbitrary events of
-   everybody else in between (x1, x2, x3: no step of loop i itself; no Close before the check; no StartHunt
-   of that MAC before the lookup; refused writes allowed) — hands the connection exactly the packet restoring
+   everybody else in between (x1, x2, x3: no step of loop i itself; no Close and no StartHunt of that MAC before
+   the lookup — h.closed is read in the lookup's lock section since /repo 161661f, so even a Close AFTER the
+   lookup does not stop the restore; refused writes allowed) — hands the connection exactly the packet restoring
    the router's MAC (it reaches the wire unless that very write is refused) and the loop has returned.
    How the loop gets to its select: C13_iteration_completes (at most two own steps, at most one frame); how
    many forged frames can still reach the MAC meanwhile: C13_stale_bound (the ones already decided). *)
@@ -145,7 +176,7 @@ Theorem C13_stop_undone : forall c s1 a i p x1 x2 x3,
   cfg_ok c ->
   loop_at s1 i a p -> at_select p = true -> closed s1 = false -> hunted s1 (amac a) = false ->
   none_of (is_loop_event i) x1 -> none_of is_close x1 -> none_of (is_start_of (amac a)) x1 ->
-  none_of (is_loop_event i) x2 -> none_of is_close x2 ->
+  none_of (is_loop_event i) x2 ->
   none_of (is_loop_event i) x3 ->
   let s4 := final c s1 (x1 ++ [Lookup i] ++ x2 ++ [Check i] ++ x3) in
   loop_at s4 i a (PSend (restore c (amac a)) false) /\
@@ -180,22 +211,19 @@ Print Assumptions C13_dead_loop_silent.
    Once closed (any state, any continuation): what the handler still hands to the connection on its own —
    loops, the receive path, AND the steps of a Scan in flight; only the caller's direct send calls are not
    counted — plus what is still decided-but-unwritten at the end, never exceeds what was decided-but-unwritten
-   when Close returned (pending: loops between check and write, spoof replies in flight, scans that have
-   passed their h.closed test): at most ONE frame per loop / ProcessPacket call / Scan, the one already decided.  "Nothing at all after Close" is refuted by that interleaving.  And every
-   loop ends: its next iteration after Close is silent and final (C13_close_ends_loop). *)
+   when Close returned (pending: loops past their lock section — lookup + read of h.closed — and not yet through
+   their write, spoof replies in flight, scans that have passed their h.closed test): at most ONE frame per loop / ProcessPacket call / Scan, the one already decided.  "Nothing at all after Close" is refuted by that interleaving.  And every
+   loop ends: its next pass through the lock section after Close is silent and final (C13_close_ends_loop). *)
 Theorem C13_close_stops : forall c evs s,
   closed s = true -> (own_frames (trace c s evs) + pending (final c s evs) <= pending s)%nat.
 Proof. exact close_bound. Qed.
 Print Assumptions C13_close_stops.
 
-Theorem C13_close_ends_loop : forall c s a i p x1 x2,
+Theorem C13_close_ends_loop : forall c s a i p x1,
   closed s = true -> loop_at s i a p -> at_select p = true ->
-  none_of (is_loop_event i) x1 -> none_of (is_loop_event i) x2 ->
+  none_of (is_loop_event i) x1 ->
   let sa := final c s x1 in
-  let sb := fst (step c sa (Lookup i)) in
-  let sc := final c sb x2 in
-  snd (step c sa (Lookup i)) = [] /\ snd (step c sc (Check i)) = [] /\
-  loop_at (fst (step c sc (Check i))) i a PDone.
+  snd (step c sa (Lookup i)) = [] /\ loop_at (fst (step c sa (Lookup i))) i a PDone.
 Proof. exact close_ends_loop. Qed.
 Print Assumptions C13_close_ends_loop.
 
@@ -223,7 +251,7 @@ Theorem C13_periodic_announce : forall c s a i p x1 x2 x3,
   loop_at s i a p -> at_select p = true -> closed s = false ->
   hunted (final c s x1) (amac a) = true ->
   none_of (is_loop_event i) x1 -> none_of is_close x1 ->
-  none_of (is_loop_event i) x2 -> none_of is_close x2 ->
+  none_of (is_loop_event i) x2 ->
   none_of (is_loop_event i) x3 ->
   let s4 := final c s (x1 ++ [Lookup i] ++ x2 ++ [Check i] ++ x3) in
   exists s5,
